@@ -94,54 +94,57 @@ fn c01_current_data() -> ([u8; 8], usize) {
     (c, verif_fs::data_len())
 }
 
-/// the snapshot log is a prefix of the live log (first 24 bytes compared)
-fn c01_snap_log_is_prefix_of_live() -> bool {
+/// the snapshot log is a prefix of the live log (the 24 bytes from `off` on
+/// compared; the harness guarantees that the log was `off` bytes long, and
+/// complete, before the call under test)
+fn c01_snap_log_is_prefix_of_live(off: usize) -> bool {
     let sl = verif_fs::snap_log_len();
-    if sl > verif_fs::log_len() {
+    if sl > verif_fs::log_len() || sl < off {
         return false;
     }
     let mut okk = true;
     macro_rules! cmp {
-        ($($i:literal),*) => { $( if $i < sl && verif_fs::snap_log_byte($i) != verif_fs::log_byte($i) { okk = false; } )* };
+        ($($i:literal),*) => { $( if off + $i < sl && verif_fs::snap_log_byte(off + $i) != verif_fs::log_byte(off + $i) { okk = false; } )* };
     }
     cmp!(0, 1, 2, 3, 4, 5, 6, 7, 8, 9, 10, 11, 12, 13, 14, 15, 16, 17, 18, 19, 20, 21, 22, 23);
     okk
 }
 
-/// Reads the record at offset 0 of the live log with the documented format
-/// (position u64 LE, length u64 LE, bytes) into a real `WriteAheadLogRecord`.
-fn c01_parse_first_record() -> WriteAheadLogRecord {
-    let pos = verif_fs::log_u64(0);
-    let size = verif_fs::log_u64(8);
+/// Reads the record at offset `off` of the live log (it must be the last one)
+/// with the documented format (position u64 LE, length u64 LE, bytes) into a
+/// real `WriteAheadLogRecord`.
+fn c01_parse_last_record(off: usize) -> WriteAheadLogRecord {
+    let pos = verif_fs::log_u64(off);
+    let size = verif_fs::log_u64(off + 8);
     assert!(size <= 8, "C01: undo record longer than anything the call could have overwritten");
-    assert!(verif_fs::log_len() as u64 == 16 + size, "C01: log does not hold exactly one complete record");
+    assert!(verif_fs::log_len() as u64 == off as u64 + 16 + size, "C01: the call did not append exactly one complete record");
     let mut value: Vec<u8> = Vec::with_capacity(8);
     let n = size as usize;
     unsafe {
         let p = value.as_mut_ptr();
         if 0 < n {
-            p.add(0).write(verif_fs::log_byte(16));
+            p.add(0).write(verif_fs::log_byte(off + 16));
         }
         if 1 < n {
-            p.add(1).write(verif_fs::log_byte(17));
+            p.add(1).write(verif_fs::log_byte(off + 17));
         }
         if 2 < n {
-            p.add(2).write(verif_fs::log_byte(18));
+            p.add(2).write(verif_fs::log_byte(off + 18));
         }
         if 3 < n {
-            p.add(3).write(verif_fs::log_byte(19));
+            p.add(3).write(verif_fs::log_byte(off + 19));
         }
         if 4 < n {
-            p.add(4).write(verif_fs::log_byte(20));
+            p.add(4).write(verif_fs::log_byte(off + 20));
         }
         if 5 < n {
-            p.add(5).write(verif_fs::log_byte(21));
+            p.add(5).write(verif_fs::log_byte(off + 21));
         }
         if 6 < n {
-            p.add(6).write(verif_fs::log_byte(22));
+            p.add(6).write(verif_fs::log_byte(off + 22));
         }
         if 7 < n {
-            p.add(7).write(verif_fs::log_byte(23));
+            p.add(7).write(verif_fs::log_byte(off + 23));
         }
         value.set_len(n);
     }
@@ -161,12 +164,18 @@ fn c01_open_data_file() -> File {
 /// Obligation A, shared tail: called after ONE storage call completed on a
 /// storage whose log was empty, with a crash point armed before the call.
 fn c01_check_undo_record(d0: &[u8; 8], n0: usize) {
+    c01_check_undo_record_at(0, d0, n0)
+}
+
+/// Same, for a call made when the log already held `off` bytes of complete
+/// records; (d0, n0) is the data file content before THIS call.
+fn c01_check_undo_record_at(off: usize, d0: &[u8; 8], n0: usize) {
     if verif_fs::first_data_mutation_step() == u32::MAX {
         // the call did not touch the data file at all (e.g. an empty write):
         // then it must not have changed it, and whatever it logged is harmless
         assert!(c01_data_is(d0, n0), "C01: data file changed without a data-file call");
-        if verif_fs::log_len() > 0 {
-            let rec = c01_parse_first_record();
+        if verif_fs::log_len() > off {
+            let rec = c01_parse_last_record(off);
             let mut f = c01_open_data_file();
             ok(FileStorage::apply_wal_record(&mut f, rec));
             assert!(
@@ -186,7 +195,7 @@ fn c01_check_undo_record(d0: &[u8; 8], n0: usize) {
     let in_log = verif_fs::snap_step() < verif_fs::first_data_mutation_step();
     // A2: a crash leaves a prefix of the log as it would have been
     assert!(
-        c01_snap_log_is_prefix_of_live(),
+        c01_snap_log_is_prefix_of_live(off),
         "C01: crash state of the log is not a prefix of the appended record"
     );
     if in_log {
@@ -196,7 +205,7 @@ fn c01_check_undo_record(d0: &[u8; 8], n0: usize) {
             "C01: data file changed although the crash was inside the log append"
         );
         kani::cover!(
-            verif_fs::snap_log_len() > 0 && verif_fs::snap_log_len() < verif_fs::log_len(),
+            verif_fs::snap_log_len() > off && verif_fs::snap_log_len() < verif_fs::log_len(),
             "crash left a partial record"
         );
     } else {
@@ -206,7 +215,7 @@ fn c01_check_undo_record(d0: &[u8; 8], n0: usize) {
         );
         // A3: applying the record (real apply_wal_record) to the data file as the
         //     crash left it gives back the content from before the call
-        let rec = c01_parse_first_record();
+        let rec = c01_parse_last_record(off);
         verif_fs::restore_snapshot();
         let mut f = c01_open_data_file();
         ok(FileStorage::apply_wal_record(&mut f, rec));
@@ -319,6 +328,10 @@ fn c01_replay_two(l1: usize, l2: usize, mode: u8) {
     let v2: [u8; 2] = kani::any();
     // stay inside the model: positions at most one past the data that can exist
     kani::assume(p1 <= 5 && p2 <= 5);
+    // mode 2: a storage opened on the committed content (empty log) whose
+    // transaction then logs the two records through a second handle on the
+    // same log file
+    let st_for_drop = if mode == 2 { Some(ok(FileStorage::new("db"))) } else { None };
     {
         let mut wal = ok(crate::storage::write_ahead_log::WriteAheadLog::new("db"));
         ok(wal.insert(p1, &v1[..l1])); // older record
@@ -340,14 +353,7 @@ fn c01_replay_two(l1: usize, l2: usize, mode: u8) {
     } else if mode == 2 {
         // a storage with an unfinished transaction (its log holds the two
         // records) goes out of scope
-        let st = FileStorage {
-            file: c01_open_data_file(),
-            filename: String::new(),
-            len: n0 as u64,
-            lock: Mutex::new(()),
-            wal: ok(crate::storage::write_ahead_log::WriteAheadLog::new("db")),
-        };
-        drop(st);
+        drop(st_for_drop);
     } else {
         let mut f = c01_open_data_file();
         let mut wal = ok(crate::storage::write_ahead_log::WriteAheadLog::new("db"));
@@ -408,7 +414,7 @@ fn c01_open_replays_log() {
     c01_replay_two(1, 2, 1);
 }
 
-//@ id=C01 tier=quick timeout=900 bounds="data 0..=4 symbolic bytes; a FileStorage whose log holds TWO undo records (2 bytes, 1 byte; symbolic positions <= 5) is dropped" desc="dropping the storage with an unfinished transaction replays the log (newest-first) and clears it" kernel="Drop for FileStorage,FileStorage::apply_wal,FileStorage::flush"
+//@ id=C01 tier=quick timeout=900 mem=24 bounds="data 0..=4 symbolic bytes; a FileStorage whose log holds TWO undo records (2 bytes, 1 byte; symbolic positions <= 5) is dropped" desc="dropping the storage with an unfinished transaction replays the log (newest-first) and clears it" kernel="Drop for FileStorage,FileStorage::apply_wal,FileStorage::flush"
 #[kani::proof]
 #[kani::stub(std::fmt::format, crate::verif_support::fmt_stub)]
 #[kani::stub(crate::DbError::new, crate::verif_support::dberror_new_stub)]
@@ -474,4 +480,75 @@ fn c01_open_with_empty_log_keeps_content() {
     std::mem::forget(st);
     kani::cover!(n0 == 4, "four bytes");
     kani::cover!(true, "end of harness reachable");
+}
+
+/// First call of a transaction (no crash point): a write of exactly two
+/// symbolic bytes inside the file, or a shrink by one byte. Returns nothing;
+/// the caller reads the resulting state from the model.
+fn c01_first_call(st: &mut FileStorage, shrink: bool) {
+    if shrink {
+        let l = st.len();
+        kani::assume(l >= 1);
+        ok(st.resize(l - 1));
+    } else {
+        let pos: u64 = kani::any();
+        let b: [u8; 2] = kani::any();
+        kani::assume(st.len() >= 2 && pos <= st.len() - 2);
+        ok(st.write(pos, &b));
+    }
+}
+
+fn c01_second_call_scenario(first_is_shrink: bool) {
+    let (_d0, _n0) = c01_init();
+    let mut st = ok(FileStorage::new("db"));
+    c01_first_call(&mut st, first_is_shrink);
+    // state before the call under test
+    let (d1, n1) = c01_current_data();
+    let off = verif_fs::log_len();
+    kani::assume(off <= 24);
+    c01_arm_crash();
+    let kind: bool = kani::any();
+    if kind {
+        let pos: u64 = kani::any();
+        let n: usize = kani::any();
+        let bytes: [u8; 3] = kani::any();
+        kani::assume(n <= 3);
+        let len = st.len();
+        kani::assume(pos <= len);
+        kani::assume(pos == len || pos + n as u64 <= len);
+        ok(st.write(pos, &bytes[..n]));
+    } else {
+        let new_len: u64 = kani::any();
+        kani::assume(new_len <= st.len() + 2);
+        ok(st.resize(new_len));
+    }
+    std::mem::forget(st);
+    c01_check_undo_record_at(off, &d1, n1);
+    kani::cover!(kind, "second call is a write");
+    kani::cover!(!kind, "second call is a resize");
+    kani::cover!(true, "end of harness reachable");
+}
+
+//@ id=C01 tier=quick timeout=1500 mem=16 bounds="committed content 0..=4 symbolic bytes; first call = write of 2 symbolic bytes inside the file; SECOND call (under test) = write of 0..=3 bytes or resize to <= len+2, with every crash point (torn <= 8)" desc="the undo record of a call does not depend on what the transaction logged before: applying the record of the SECOND call restores the content from before that call (overlapping and re-written regions included)" kernel="FileStorage::write,FileStorage::resize,FileStorage::apply_wal_record,WriteAheadLog::insert"
+#[kani::proof]
+#[kani::stub(std::fmt::format, crate::verif_support::fmt_stub)]
+#[kani::stub(crate::DbError::new, crate::verif_support::dberror_new_stub)]
+#[kani::stub(<crate::DbError as std::convert::From<std::io::Error>>::from, crate::verif_support::ioerr_stub)]
+#[kani::stub(crate::storage::write_ahead_log::WriteAheadLog::wal_filename, crate::verif_support::wal_name_stub)]
+#[kani::stub(std::vec::from_elem, crate::verif_support::from_elem_stub8)]
+#[kani::unwind(2)]
+fn c01_second_call_after_write_undo_record_inverts() {
+    c01_second_call_scenario(false);
+}
+
+//@ id=C01 tier=quick timeout=1500 mem=16 bounds="as above, first call = shrink by one byte" desc="the undo record of a call made after a shrink restores the content from before that call (shrink then grow, shrink then write)" kernel="FileStorage::write,FileStorage::resize,FileStorage::apply_wal_record,WriteAheadLog::insert"
+#[kani::proof]
+#[kani::stub(std::fmt::format, crate::verif_support::fmt_stub)]
+#[kani::stub(crate::DbError::new, crate::verif_support::dberror_new_stub)]
+#[kani::stub(<crate::DbError as std::convert::From<std::io::Error>>::from, crate::verif_support::ioerr_stub)]
+#[kani::stub(crate::storage::write_ahead_log::WriteAheadLog::wal_filename, crate::verif_support::wal_name_stub)]
+#[kani::stub(std::vec::from_elem, crate::verif_support::from_elem_stub8)]
+#[kani::unwind(2)]
+fn c01_second_call_after_shrink_undo_record_inverts() {
+    c01_second_call_scenario(true);
 }
